@@ -120,6 +120,26 @@ def main():
       if os.path.exists(os.path.join(SEEDED, sid, 'meta.json')):
         run(sid, sys.argv[2:])
     return 0
+  if sys.argv[1] == 'table':
+    rows = []
+    for sid in sorted(os.listdir(SEEDED)):
+      mp = os.path.join(SEEDED, sid, 'meta.json')
+      if not os.path.exists(mp):
+        continue
+      m = json.load(open(mp))
+      det = m.get('detected_by', {})
+      caught = [c for c, d in sorted(det.items()) if d.get('verdict') == 'caught']
+      missed = [c for c, d in sorted(det.items()) if d.get('verdict') == 'missed']
+      other = ['%s(%s)' % (c, d.get('verdict')) for c, d in sorted(det.items()) if d.get('verdict') not in ('caught', 'missed')]
+      first = ''
+      for c in caught:
+        first = det[c].get('first', '').splitlines()[-1].strip()[:90] if det[c].get('first') else ''
+        break
+      rows.append('| %s | %s | %s | %s | %s |' % (sid, m['property'], ', '.join(caught) or '-', ', '.join(missed + other) or '-', first.replace('|', '/')))
+    print('| seeded change | property | caught by | not caught by | first violation reported |')
+    print('|---|---|---|---|---|')
+    print('\n'.join(rows))
+    return 0
   print(__doc__)
   return 64
 
